@@ -433,7 +433,7 @@ def generate():
     fns, ids, edges, guards, structural, jump, budget, data = build()
     L = []
     A = L.append
-    A("(* GENERATED by translator/gen_stack.py from %s — do not edit. *)" % REPO)
+    A("(* GENERATED by translator/gen_stack.py from the Rust source — do not edit. *)")
     A("From Coq Require Import ZArith List.")
     A("Import ListNotations.")
     A("")
